@@ -12,7 +12,7 @@ from props import commit_common as cc
 
 PROP = "C03"
 PROPS_FILE = "props/C03.v"
-GEN = ["gen_commit"]
+GEN = ["gen_commit", "gen_barrier"]
 CORRESPONDENCES = ["sync-take-with-failure:real-trace-accepted-by-model"]
 RULE = ("real Snapshot.take and async_take+wait on 1-4 simulated ranks with the n-th storage write of rank r failing, "
         "for every (r, n) of the generated workloads (payload writes and the metadata write), sync and async, under "
@@ -58,15 +58,16 @@ def correspond(ctx: Ctx) -> Result:
                     root = ctx.scratch("fail")
                     path = os.path.join(root, "snap")
                     seed = rng.randrange(1 << 30)
-                    policy = (lambda r, p, n, fr=fr, fn_=fn_: "fail" if (r == fr and n == fn_) else None)
+                    how = "fail-empty" if (seed % 3 == 0) else "fail"     # a third of the faults carry an EMPTY message
+                    policy = (lambda r, p, n, fr=fr, fn_=fn_, how=how: how if (r == fr and n == fn_) else None)
                     world = cc.run_take(wl, path, mode, sched, seed, write_policy=policy)
-                    replay = {"workload": wl, "mode": mode, "sched": sched, "seed": seed, "fail_rank": fr, "fail_nth": fn_}
+                    replay = {"workload": wl, "mode": mode, "sched": sched, "seed": seed, "fail_rank": fr, "fail_nth": fn_, "how": how}
                     ws = cc.writes_of(world)
                     failed = [w for w in ws if w["failed"]]
                     is_meta = bool(failed) and failed[0]["path"] == cc.META
                     res.case({"W": wl["W"], "mode": mode, "sched": str(sched), "fail": [fr, fn_], "what": "metadata" if is_meta else "payload"},
                              nontrivial=wl["W"] >= 2)
-                    res.count("mode", mode); res.count("failed_write", "metadata" if is_meta else "payload"); res.count("W", wl["W"])
+                    res.count("mode", mode); res.count("failed_write", "metadata" if is_meta else "payload"); res.count("W", wl["W"]); res.count("message", "empty" if how == "fail-empty" else "text")
                     if not failed:
                         res.notes.append(f"write #{fn_} of rank {fr} did not happen in this run")
                         shutil.rmtree(root, ignore_errors=True)
@@ -134,7 +135,7 @@ def replay(ctx: Ctx, data):
     path = os.path.join(root, "snap")
     fr, fn_ = data["fail_rank"], data["fail_nth"]
     sched = data["sched"] if isinstance(data["sched"], str) else tuple(data["sched"])
-    world = cc.run_take(wl, path, data["mode"], sched, data["seed"], write_policy=lambda rr, p, n: "fail" if (rr == fr and n == fn_) else None)
+    world = cc.run_take(wl, path, data["mode"], sched, data["seed"], write_policy=lambda rr, p, n: data.get("how", "fail") if (rr == fr and n == fn_) else None)
     ws = cc.writes_of(world)
     metas = [w for w in ws if w["path"] == cc.META]
     failed = [w for w in ws if w["failed"]]
